@@ -375,9 +375,9 @@ func controlledEnrich(r *hx.Run, rnd *hx.Rand, sc *scenario, lim int, injectCanc
 	}
 	if !ok {
 		close(c.abort)
-		hangs.Add(1)
 		select {
 		case res := <-done:
+			stucks.Add(1)
 			r.Op("e-stuck", "the implementation did not perform a step the machine expects: "+p.failure, true)
 			r.Count("eproto:stuck-then-completed-freely")
 			if !p.cancelled {
@@ -386,6 +386,7 @@ func controlledEnrich(r *hx.Run, rnd *hx.Rand, sc *scenario, lim int, injectCanc
 				}
 			}
 		case <-time.After(callTimeout):
+			hangs.Add(1)
 			r.Fail("", "controlled-schedule(enrichment): "+p.failure+"; the call did not return even after all goroutines were released "+witness())
 		}
 		return
